@@ -218,6 +218,35 @@ def SMembers.fits (lim : Limits) : Nat → SMembers → Prop
   | d, .cons _ k _ _ v _ tl => (denoteItems k).length ≤ lim.stringLengthMax ∧ v.fits lim d ∧ tl.fits lim d
 end
 
+/-- RFC 8259 `*char` exactly: a sequence of escapes and of UNESCAPED characters, an unescaped character being the UTF-8 encoding
+    (core Lean's `String.utf8EncodeChar`) of a Unicode scalar value `≥ U+0020` other than `"` and `\` (`%x20-21 / %x23-5B / %x5D-10FFFF`).
+    `StrItem.ok` (what J1 needs) is weaker; `strictItems_ok` shows every strict string is `ok`. -/
+inductive StrictItems : List StrItem → Prop
+  | nil : StrictItems []
+  | esc (e : Esc) {tl : List StrItem} : StrictItems tl → StrictItems (.esc e :: tl)
+  | u (a1 a2 a3 a4 : HexDigit) {tl : List StrItem} : StrictItems tl → StrictItems (.u a1 a2 a3 a4 :: tl)
+  | char (c : Char) {tl : List StrItem} : 0x20 ≤ c.val.toNat → c.val.toNat ≠ 0x22 → c.val.toNat ≠ 0x5C → StrictItems tl →
+      StrictItems ((String.utf8EncodeChar c).map StrItem.raw ++ tl)
+
+mutual
+/-- the tree is in the grammar of RFC 8259 in the strict sense: every string and key is `StrictItems` (no raw control character,
+    raw bytes form well-formed UTF-8) -/
+def SVal.strict : SVal → Prop
+  | .str s => StrictItems s
+  | .arr _ es => es.strict
+  | .obj _ ms => ms.strict
+  | _ => True
+def SElems.strict : SElems → Prop
+  | .nil => True
+  | .cons _ v _ tl => v.strict ∧ tl.strict
+def SMembers.strict : SMembers → Prop
+  | .nil => True
+  | .cons _ k _ _ v _ tl => StrictItems k ∧ v.strict ∧ tl.strict
+end
+
+/-- well-formed UTF-8: the encoding of a sequence of Unicode scalar values -/
+def ValidUtf8 (s : Bytes) : Prop := ∃ cs : List Char, s = cs.flatMap String.utf8EncodeChar
+
 /-- `JSON-text = ws value ws` -/
 structure SText where
   w1 : Ws
@@ -232,10 +261,21 @@ def SText.fits (lim : Limits) (t : SText) : Prop := t.v.fits lim 0
 
 /-! ### which values the round-trip statement J2 speaks about -/
 
-/-- `Json::_formatDouble d` is a JSON number with a fraction or an exponent that `strtod` reads back as `d`
-    (what "finite double" + correctly rounded `%.17g`/`strtod` give; an assumption about libc, validated by the lockstep) -/
-def RoundTrips (ops : FloatOps) (d : UInt64) : Prop :=
-  ∃ n : SNum, n.ok ∧ n.isFloat = true ∧ n.render = ops.fmt d ∧ ops.strtod (ops.fmt d) = d
+/-- What J2/J3 assume about libc's `snprintf("%.*g")` / `strtod` pair — nothing else about floating point is assumed; the logic of
+    `Json::_formatDouble` (precision loop, `.0` suffix) is proved on top of these four facts (`formatDouble_roundtrips`):
+    * `shape`: for the precisions the loop tries, `%.{p}g` of a finite double is a JSON number token (`-?int[.frac][e±exp]`);
+    * `exactHi`: the text with the LAST precision tried (17 significant digits) reads back as the same double;
+    * `zeroSign`: a zero whose text reads back as a zero reads back as the SAME zero (the sign of `-0.0` is printed and read);
+    * `dotZero`: appending `.0` to an integer-looking token does not change what `strtod` returns.
+    All four hold for a correctly rounded libc (glibc); they are validated bit for bit by the lockstep, not proved. -/
+structure LibcOk (ops : FloatOps) : Prop where
+  shape : ∀ p d, Gen.Json.fmtPrecLo ≤ p → p ≤ Gen.Json.fmtPrecHi → isFiniteBits d = true →
+    ∃ n : SNum, n.ok ∧ n.render = ops.printfG p d
+  exactHi : ∀ d, isFiniteBits d = true → ops.strtod (ops.printfG Gen.Json.fmtPrecHi d) = d
+  zeroSign : ∀ p d, isZeroBits d = true → isZeroBits (ops.strtod (ops.printfG p d)) = true →
+    ops.strtod (ops.printfG p d) = d
+  dotZero : ∀ n : SNum, n.ok → n.isFloat = false →
+    ops.strtod (n.render ++ Gen.Json.fmtSuffix.map b8) = ops.strtod n.render
 
 end Iora.Json.Spec
 
@@ -243,20 +283,20 @@ namespace Iora.Json
 open Iora.Json.Spec
 
 mutual
-/-- a value the C++ `Json` type can hold and J2 speaks about: integers in `int64`, doubles that round-trip (`RoundTrips`: finite),
+/-- a value the C++ `Json` type can hold and J2 speaks about ("made of finite numbers"): integers in `int64`, FINITE doubles,
     objects with pairwise distinct keys (`std::unordered_map`) -/
-def Json.Good (ops : FloatOps) : Json → Prop
+def Json.Good : Json → Prop
   | .int i => -(2 ^ 63 : Int) ≤ i ∧ i < 2 ^ 63
-  | .dbl d => RoundTrips ops d
-  | .arr xs => Json.GoodList ops xs
-  | .obj ms => (ms.map Prod.fst).Nodup ∧ Json.GoodMembers ops ms
+  | .dbl d => isFiniteBits d = true
+  | .arr xs => Json.GoodList xs
+  | .obj ms => (ms.map Prod.fst).Nodup ∧ Json.GoodMembers ms
   | _ => True
-def Json.GoodList (ops : FloatOps) : List Json → Prop
+def Json.GoodList : List Json → Prop
   | [] => True
-  | x :: xs => x.Good ops ∧ Json.GoodList ops xs
-def Json.GoodMembers (ops : FloatOps) : List (Bytes × Json) → Prop
+  | x :: xs => x.Good ∧ Json.GoodList xs
+def Json.GoodMembers : List (Bytes × Json) → Prop
   | [] => True
-  | (_, v) :: ms => v.Good ops ∧ Json.GoodMembers ops ms
+  | (_, v) :: ms => v.Good ∧ Json.GoodMembers ms
 end
 
 mutual
@@ -272,6 +312,21 @@ def Json.withinList (lim : Limits) (slack : Nat) : Nat → List Json → Prop
 def Json.withinMembers (lim : Limits) (slack : Nat) : Nat → List (Bytes × Json) → Prop
   | _, [] => True
   | d, (k, v) :: ms => k.length ≤ lim.stringLengthMax + slack ∧ v.within lim slack d ∧ Json.withinMembers lim slack d ms
+end
+
+mutual
+/-- every string and every key of the value is well-formed UTF-8 ("valid UTF-8 strings" in the property) -/
+def Json.utf8 : Json → Prop
+  | .str s => ValidUtf8 s
+  | .arr xs => Json.utf8List xs
+  | .obj ms => Json.utf8Members ms
+  | _ => True
+def Json.utf8List : List Json → Prop
+  | [] => True
+  | x :: xs => x.utf8 ∧ Json.utf8List xs
+def Json.utf8Members : List (Bytes × Json) → Prop
+  | [] => True
+  | (k, v) :: ms => ValidUtf8 k ∧ v.utf8 ∧ Json.utf8Members ms
 end
 
 mutual
@@ -312,12 +367,12 @@ def lookupKey (k : Bytes) : List (Bytes × Json) → Option Json
 
 mutual
 /-- mirrors `Json::operator==` (`std::variant` equality; `std::unordered_map::operator==`: same size and every member of the
-    left operand is found in the right one with an equal value); doubles are compared by bit pattern -/
+    left operand is found in the right one with an equal value); doubles are compared with `operator==` on `double` (`dblEq`) -/
 def eqv : Json → Json → Bool
   | .null, .null => true
   | .bool a, .bool b => a == b
   | .int a, .int b => a == b
-  | .dbl a, .dbl b => a == b
+  | .dbl a, .dbl b => dblEq a b
   | .str a, .str b => a == b
   | .arr xs, .arr ys => eqvList xs ys
   | .obj ms, .obj ns => ms.length == ns.length && eqvMembers ms ns
